@@ -1414,3 +1414,96 @@ Proof.
   { field. split; assumption. }
   rewrite G, X. field. split; assumption.
 Qed.
+
+(* ================================================================ partition: stale outlet contents *)
+
+Lemma scatter_in_exists v idx vals i :
+  In i idx -> length vals = length idx -> (i < length v)%nat ->
+  exists k, (k < length idx)%nat /\ nth k idx 0%nat = i /\ nthq (scatter v idx vals) i = nthq vals k.
+Proof.
+  revert v vals; induction idx as [|j idx IH]; intros v [|x vals] H L B; simpl in *; try contradiction; try discriminate.
+  destruct (in_dec Nat.eq_dec i idx) as [Hin|Hnin].
+  - destruct (IH (upd v j x) vals Hin ltac:(lia) ltac:(rewrite upd_length; exact B)) as (k & K1 & K2 & K3).
+    exists (S k). split; [lia|]. split; [exact K2|]. rewrite nthq_consS. exact K3.
+  - destruct H as [E|H]; [subst j|contradiction].
+    exists 0%nat. split; [lia|]. split; [reflexivity|].
+    rewrite scatter_other by exact Hnin. rewrite nthq_cons0. apply nthq_upd_same_lt; exact B.
+Qed.
+
+Lemma map2_length_eq {A B C} (f : A -> B -> C) a b : length a = length b -> length (map2 f a b) = length a.
+Proof. apply map2_length. Qed.
+
+Lemma clip_length mol maxmol strict :
+  length mol = length maxmol ->
+  c_err (handle_infeasible mol maxmol strict) = None ->
+  length (c_arr (handle_infeasible mol maxmol strict)) = length mol.
+Proof.
+  intros L. unfold handle_infeasible.
+  destruct (existsb (fun x => qltb x 0) mol && strict)%bool; simpl; [discriminate|].
+  match goal with |- context [if (?o && strict)%bool then _ else _] => destruct (o && strict)%bool end;
+    simpl; [discriminate|].
+  intros _. rewrite map2_length; rewrite map_length; [reflexivity|exact L].
+Qed.
+
+Section PartitionStale.
+Variable pf : vec -> vec -> Q -> Q -> Q.
+
+(* Stale flows of the equilibrium and forced chemicals in the outlets are harmless: every one of them is
+   overwritten on each normal return.  Only chemicals that partition never writes must be fresh
+   (not above the feed) in the bottom outlet. *)
+Lemma partition_nonneg_stale_lemma feed top0 bot0 ids K topc botc strict phi :
+  length feed = length bot0 -> length top0 = length bot0 -> nonneg feed ->
+  length K = length ids ->
+  (forall i, In i ids \/ In i topc \/ In i botc -> (i < length bot0)%nat) ->
+  (forall i, ~ In i ids -> ~ In i topc -> ~ In i botc -> 0 <= nthq bot0 i <= nthq feed i) ->
+  let r := partition pf feed top0 bot0 ids K topc botc strict in
+  p_phi r = Ok phi ->
+  forall i, 0 <= nthq (p_top r) i /\ 0 <= nthq (p_bot r) i <= nthq feed i.
+Proof.
+  intros L LT N LK RNG FRESH r H i.
+  pose proof (partition_conserves_lemma pf feed top0 bot0 ids K topc botc strict phi L H i) as C. fold r in C.
+  assert (BB : 0 <= nthq (p_bot r) i <= nthq feed i); [|lra].
+  clear C. revert H. unfold r, partition. clear r.
+  destruct (forced feed top0 bot0 topc) as [[top1 bot1] Fa] eqn:F1.
+  destruct (forced feed bot1 top1 botc) as [[bot2 top2] Fb] eqn:F2.
+  destruct (forced_spec _ _ _ _ _ _ _ F1) as (L1a & L1 & _ & _ & _ & O1 & I1).
+  destruct (forced_spec _ _ _ _ _ _ _ F2) as (L2 & _ & _ & _ & _ & O2 & I2).
+  assert (NI : ~ In i ids -> 0 <= nthq bot2 i <= nthq feed i).
+  { intros Hn. destruct (in_dec Nat.eq_dec i botc) as [Hb|Hb].
+    - destruct (I2 i Hb) as [E _]; [rewrite L1; apply RNG; auto | rewrite L1a, LT; apply RNG; auto|].
+      rewrite E. specialize (N i). lra.
+    - destruct (O2 i Hb) as [E _]. rewrite E.
+      destruct (in_dec Nat.eq_dec i topc) as [Ht|Ht].
+      + destruct (I1 i Ht) as [_ E1]; [rewrite LT; apply RNG; auto | apply RNG; auto|].
+        rewrite E1. specialize (N i). lra.
+      + destruct (O1 i Ht) as [_ E1]. rewrite E1. apply FRESH; assumption. }
+  assert (LB2 : length bot2 = length bot0) by congruence.
+  destruct (qzerob _); cbn [p_phi p_bot]; [discriminate|].
+  destruct (in_dec Nat.eq_dec i ids) as [Hi|Hi].
+  2:{ destruct (qleb _ 0); cbn [p_phi p_bot]; [intros _; rewrite scatter_other by exact Hi; apply NI; exact Hi|].
+      destruct (qltb _ 1).
+      - destruct (existsb qzerob _); cbn [p_phi]; [discriminate|].
+        destruct (c_err _); cbn [p_phi p_bot]; [discriminate|].
+        intros _. rewrite scatter_other by exact Hi. apply NI; exact Hi.
+      - cbn [p_phi p_bot]. intros _. rewrite scatter_c_other by exact Hi. apply NI; exact Hi. }
+  assert (IB : (i < length bot2)%nat) by (rewrite LB2; apply RNG; auto).
+  destruct (qleb _ 0); cbn [p_phi p_bot].
+  - intros _.
+    destruct (scatter_in_exists bot2 ids (gather feed ids) i Hi (gather_length _ _) IB) as (k & K1 & K2 & K3).
+    rewrite K3, nthq_gather, K2 by exact K1. specialize (N i). lra.
+  - destruct (qltb _ 1).
+    + destruct (existsb qzerob _); cbn [p_phi]; [discriminate|].
+      match goal with |- context [handle_infeasible ?bm ?mol strict] =>
+        pose proof (clip_range_lemma bm mol strict (gather_nonneg feed ids N)) as CR;
+        pose proof (clip_length bm mol strict) as CL;
+        destruct (c_err (handle_infeasible bm mol strict)) eqn:EC end;
+        cbn [p_phi p_bot]; [discriminate|].
+      intros _. specialize (CR eq_refl).
+      rewrite bottom_flows_length, vdivs_length, !gather_length in CL by (rewrite vdivs_length, gather_length; lia).
+      specialize (CL eq_refl eq_refl).
+      match goal with |- context [scatter bot2 ids ?vals] =>
+        destruct (scatter_in_exists bot2 ids vals i Hi CL IB) as (k & K1 & K2 & K3) end.
+      rewrite K3. specialize (CR k). rewrite nthq_gather, K2 in CR by exact K1. exact CR.
+    + cbn [p_phi p_bot]. intros _. rewrite scatter_c_in by assumption. specialize (N i). lra.
+Qed.
+End PartitionStale.
